@@ -424,22 +424,59 @@ def do_check(pid, tier, seed):
             if p.returncode == 1:
                 # judge the failing behaviours like any other recorded behaviour: re-execute them
                 # with full logging and let the trace specification attribute the divergence
+                import random
+                rng = random.Random(seed * 7919 + len(m["cfg"]))
+                CONT = ["a", "\b", "\x1b[D", "\x1b[2I", "\x1b[2Z", "\t", "\n", "\x1bM", "\x1b8", "\x1b7", "\x1b[S", "\x1b[T", "\x1b[A", "\x1b[B",
+                        "\x1b[C", "\x1b[P", "\x1b[@", "\x1b[X", "\x1b[K", "\x1b[J", "\x1b[L", "\x1b[M", "\x1b[2b", "\x1b[1;1H", "\x1b[999;999H",
+                        "\x1b[?6h", "\x1b[?7l", "\x1b[?1047h", "\x1b[?1047l", "\x1b[?1049l", "\x1bE", "\x1b[g", "\x1bH", "\r", "\x1b[r", "\x1b[2;3r",
+                        "\x1b[!p", "\x1b[m", "\x1b[7m", "\x1b#8", "ab", "\x1b[4h", "+c", "-c", "+r", "-r", "*c"]
+
+                def write_ep(o, k, b, extra):
+                    o.write(json.dumps({"ev": "ep", "id": k, "drv": "tlcreplay"}) + "\n")
+                    o.write(json.dumps({"ev": "new", "slot": 1, "cols": b["init"][0], "rows": b["init"][1], "lim": b["init"][2]}) + "\n")
+                    cols, rows = b["init"][0], b["init"][1]
+                    for op in b["ops"]:
+                        if op["k"] == "fs":
+                            o.write(json.dumps({"ev": "fs", "slot": 1, "s": op["s"], "consumed": True}) + "\n")
+                        else:
+                            cols, rows = op["c"], op["r"]
+                            o.write(json.dumps({"ev": "rs", "slot": 1, "cols": op["c"], "rows": op["r"], "consumed": True}) + "\n")
+                    for x in extra:
+                        if x in ("+c", "-c", "+r", "-r", "*c"):
+                            cols, rows = {"+c": (cols + 1, rows), "-c": (max(1, cols - 1), rows), "+r": (cols, rows + 1),
+                                          "-r": (cols, max(1, rows - 1)), "*c": (cols * 2, rows)}[x]
+                            o.write(json.dumps({"ev": "rs", "slot": 1, "cols": cols, "rows": rows, "consumed": True}) + "\n")
+                        else:
+                            o.write(json.dumps({"ev": "fs", "slot": 1, "s": [ord(ch) for ch in x], "consumed": True}) + "\n")
+
                 rp = os.path.join(wd, "tlcreplay-%s.replay.ndjson" % m["cfg"])
                 with open(fp) as f, open(rp, "w") as o:
-                    for k, ln in enumerate(f):
-                        if k >= 3000:
+                    k = 0
+                    conts = 0
+                    for idx, ln in enumerate(f):
+                        if idx >= 3000:
                             break
                         b = json.loads(ln)
-                        o.write(json.dumps({"ev": "ep", "id": k + 1, "drv": "tlcreplay"}) + "\n")
-                        o.write(json.dumps({"ev": "new", "slot": 1, "cols": b["init"][0], "rows": b["init"][1], "lim": b["init"][2]}) + "\n")
-                        for op in b["ops"]:
-                            if op["k"] == "fs":
-                                o.write(json.dumps({"ev": "fs", "slot": 1, "s": op["s"], "consumed": True}) + "\n")
-                            else:
-                                o.write(json.dumps({"ev": "rs", "slot": 1, "cols": op["c"], "rows": op["r"], "consumed": True}) + "\n")
+                        k += 1
+                        write_ep(o, k, b, [])
+                        # the first divergence may belong to another property; what THIS property says is decided
+                        # on continuations from the implementation's own (divergent) state
+                        if conts < 6000 and idx < 150:
+                            for x in CONT:
+                                k += 1
+                                conts += 1
+                                write_ep(o, k, b, [x])
+                            for _ in range(30):
+                                k += 1
+                                conts += 1
+                                write_ep(o, k, b, [rng.choice(CONT), rng.choice(CONT)])
+                            for _ in range(15):
+                                k += 1
+                                conts += 1
+                                write_ep(o, k, b, [rng.choice(CONT), rng.choice(CONT), rng.choice(CONT)])
                 tr = os.path.join(wd, "tlcreplay-%s.trace.ndjson" % m["cfg"])
-                subprocess.run([HARNESS, "replay", rp, "--out", tr], stdout=subprocess.PIPE, stderr=subprocess.STDOUT, text=True, timeout=300)
-                rc2, out2, _ = run_tlc(os.path.join(SPEC, "Trace.cfg"), os.path.join(SPEC, "Trace.tla"), 1, tr + ".meta", {"TRACE": tr}, 900)
+                subprocess.run([HARNESS, "replay", rp, "--out", tr], stdout=subprocess.PIPE, stderr=subprocess.STDOUT, text=True, timeout=600)
+                rc2, out2, _ = run_tlc(os.path.join(SPEC, "Trace.cfg"), os.path.join(SPEC, "Trace.tla"), 1, tr + ".meta", {"TRACE": tr}, 1800)
                 res2 = parse_trace_output(out2)
                 if res2["accepted"] is None:
                     raise ToolError("validation of failing behaviours did not complete: %s" % (res2["stuck"] or res2["error"]))
